@@ -44,8 +44,12 @@ package signer
 //@ ensures-local[C18.raw-keyid] result2 == nil ==> resp != nil && resp.KeyID == s.keyID && supportedKS(s.keySpec) && req.KeyID == s.keyID && req.KeySpec == encKS(s.keySpec) && req.Hash == hashOfKS(s.keySpec) && req.Payload == payload && result == resp.Signature && len(result1) == len(resp.CertificateChain)
 //@ ensures result2 != nil ==> result == nil && result1 == nil
 
+// keySpecFor(ks, s): provenance tag — ks was decoded from a describe-key answer whose key id equals the signer's
+//@ ghost func keySpecFor(ks signature.KeySpec, s *PluginSigner) bool
+
 //@ func (*PluginSigner).getKeySpec
 //@ props C18
+//@ ensures-ghost result1 == nil ==> keySpecFor(result, s)
 //@ requires s != nil && s.plugin != nil
 //@ ensures-local[C18.describe-keyid] result1 == nil ==> descKeyResp != nil && descKeyResp.KeyID == s.keyID && supportedKS(result) && encKS(result) == descKeyResp.KeySpec
 //@ ensures result1 != nil ==> result == zero(signature.KeySpec)
@@ -107,10 +111,10 @@ package signer
 //@ at call (*GenericSigner).Sign: assert[C07.blob-signs-generated] arg1 == desc && arg2 == opts && describedFor(arg1, signerKeySpec(s.signer))
 
 //@ func (*PluginSigner).SignBlob
-//@ props C07
+//@ props C07 C18
 //@ modifies any
 //@ requires s != nil && s.plugin != nil && descGenFunc != nil && ctx != nil && opts.ExpiryDuration >= 0
-//@ at call getDescriptor: assert[C07.blob-keyspec] arg0 == ks && arg1 == descGenFunc
+//@ at call getDescriptor: assert[C07.blob-keyspec,C18.blob-keyid] arg0 == ks && arg1 == descGenFunc && keySpecFor(arg0, s)
 //@ at call (*PluginSigner).generateSignature: assert[C07.blob-signs-generated] arg1 == desc && arg3 == ks && describedFor(arg1, ks)
 //@ at call (*PluginSigner).generateSignatureEnvelope: assert[C07.blob-signs-generated] arg1 == desc && describedFor(arg1, ks)
 
@@ -128,7 +132,7 @@ package signer
 //@ props C18
 //@ requires s != nil && s.plugin != nil && ctx != nil && opts.ExpiryDuration >= 0
 //@ modifies any
-//@ at call (*PluginSigner).generateSignature: assert[C18.sign-args] arg1 == desc && arg2 == opts && arg3 == ks && arg4 == metadata && arg5 == mergedConfig
+//@ at call (*PluginSigner).generateSignature: assert[C18.sign-args] arg1 == desc && arg2 == opts && arg3 == ks && arg4 == metadata && arg5 == mergedConfig && keySpecFor(arg3, s)
 //@ at call (*PluginSigner).generateSignatureEnvelope: assert[C18.sign-args] arg1 == desc && arg2 == opts
 //@ ensures[C18.checked-output] result2 == nil ==> result1 != nil && verifyEnvErr(string(result), opts.SignatureMediaType) == nil
 //@ ensures result2 != nil ==> result == nil && result1 == nil
